@@ -856,7 +856,13 @@ func (s *session) apply(step tf.M) {
 			src = "direct"
 		}
 		// store fault (see plantFault): the creation fails in the middle of taking the committee's nonce pairs
-		restore := s.plantFault(tf.Sub(step, "fault"))
+		// (not while a transition awaits execution: a request then also asks the incoming group, best effort - a fault
+		// that hits only that second creation is no rolled-back request)
+		fault := tf.Sub(step, "fault")
+		if s.trState() == "exec" {
+			fault = nil
+		}
+		restore := s.plantFault(fault)
 		defer restore()
 		var o world.Outcome
 		if src == "tunnel" {
@@ -887,7 +893,7 @@ func (s *session) apply(step tf.M) {
 			}
 		}
 		restore()
-		if f := tf.Sub(step, "fault"); len(f) > 0 && !o.OK() {
+		if f := fault; len(f) > 0 && !o.OK() {
 			// a creation that failed on the planted fault is a rolled-back creation: nothing of it may remain
 			s.flags["rollback"] = true
 			s.d.W.Step("RequestRollback", tf.M{"created": false, "src": src, "fault": tf.Str(f, "kind", "garbage")}, oc, s.project())
@@ -1047,7 +1053,7 @@ func (s *session) apply(step tf.M) {
 		// stored attempt is due (a retry hitting the fault would be a failure of the fault, not of a creation) and no
 		// hand-over signing is about to be created
 		restore := func() {}
-		if f := tf.Sub(step, "fault"); len(f) > 0 && trBefore != "pending" && !s.anyDue() {
+		if f := tf.Sub(step, "fault"); len(f) > 0 && trBefore != "pending" && trBefore != "exec" && !s.anyDue() {
 			restore = s.plantFault(f)
 			s.flags["rollback"] = true
 		}
